@@ -85,6 +85,17 @@ def statement(kind, k):
         return ['def f%d(a):' % k, '    return a + t(%d)' % k, 'print(f%d(1))' % k], '%d\n' % (k + 1), 'None', True, None
     if kind == 'decorated':
         return ['@deco', 'def g%d(a=t(%d)):' % (k, k), '    return a'], '', None, False, None
+    if kind == 'decorated2':
+        return ['@deco', '@deco', 'def g%d(a=t(%d)):' % (k, k), '    return a'], '', None, False, None
+    if kind == 'decorated3':
+        return ['@deco', '@deco', '@deco', 'class G%d(object):' % k, '    v = t(%d)' % k], '', None, False, None
+    if kind == 'gapmulti':
+        # a bracketed statement with an EMPTY line inside
+        return ['y%d = [t(%d),' % (k, k), '', '      0]'], '', None, False, None
+    if kind == 'gapcompound':
+        return ['if t(%d) >= 0:' % k, '', '    print("c%d")' % k], 'c%d\n' % k, None, False, None
+    if kind == 'gapclass':
+        return ['class D%d(object):' % k, '    v = t(%d)' % k, '', '    w = 1'], '', None, False, None
     if kind == 'classdef':
         return ['class C%d(object):' % k, '    v = t(%d)' % k], '', None, False, None
     if kind == 'tripstr':
@@ -131,6 +142,10 @@ class Group(object):
         self.inline_line = inline_line
         if kind != 'block':
             self.lines, self.out, self.val, self.is_expr, self.raises = statement(kind, k)
+        if kind in ('gapcompound', 'gapclass'):
+            # an empty `...` line ends a compound statement in REPL (old-style) syntax; only the
+            # all-`>>>` style can carry an empty line inside a block
+            self.style = 'new'
         if kind == 'multiexpr':
             # an old-style continuation directly followed by a want is compiled in 'single' mode,
             # which echoes the value to stdout (REPL semantics, covered by C20); keep the new style
